@@ -38,7 +38,11 @@ def objective_value(name: str, x):
         if name == "shifted": return float(np.sum((v - 0.3) * (v - 0.3)) - 7.5)           # negative optimum
         if name == "abs": return float(np.sum(np.abs(v)))
         if name == "const": return 1.0
+        if name == "lognan": return float(np.log(v[0] + 5.0) + np.sum(v * v) * 0.01)        # NaN on part of the box (x0 < -5)
         if name == "multi2": return [float(np.sum(v * v)), float(np.sum((v - 1) * (v - 1)))]
+        if name.startswith("neg:"):
+            r = objective_value(name[4:], x)
+            return [-t for t in r] if isinstance(r, list) else -r
     raise ValueError(name)
 
 
@@ -113,11 +117,38 @@ def run_job(job: dict) -> dict:
                     snaps.append([(copy.deepcopy(a.position), a.cost, a.fitness) for a in self._population])
             Snap.__name__ = cls.__name__
             cls = Snap
-        o = cls(cfg)
+        if job.get("first_cfg") is not None:                      # earlier runs under another configuration, then reconfigure
+            fc = dict(job["first_cfg"])
+            while True:                                        # drop perturbed parameters the config validators reject
+                try:
+                    _, cfg0 = load(entry, **fc); break
+                except Exception as ve:
+                    bad = [k for k in fc if k in str(ve) and k not in ("max_cycles", "fitness_error")]
+                    if not bad: raise
+                    for k in bad: fc.pop(k)
+            obs["first_cfg_used"] = fc
+            o = cls(cfg0)
+        elif job.get("via_set_config"):
+            o = cls()
+            full = dict(entry["kwargs"]); full.update(job.get("cfg", {}))
+            o.set_config_parameters(full)
+            cfg = o.configuration
+            obs["config_before"] = cfg.model_dump()
+        else:
+            o = cls(cfg)
         with contextlib.redirect_stdout(io.StringIO()):
             kw = {}
             if job.get("mode"): kw["mode"] = job["mode"]
             if job.get("workers"): kw["workers"] = job["workers"]
+            for t0 in job.get("sequence", []):          # earlier runs on the same instance
+                try:
+                    o.optimize(build_task(t0["task"]), **({"mode": t0["mode"]} if t0.get("mode") else {}))
+                except Exception as e0:
+                    obs.setdefault("sequence_errors", []).append(type(e0).__name__)
+                if t0.get("cfg"):                        # a different configuration for the next run (HyperTuner style)
+                    full = dict(entry["kwargs"]); full.update(t0["cfg"]); o.set_config_parameters(full)
+            if job.get("first_cfg") is not None:
+                full = dict(entry["kwargs"]); full.update(job.get("cfg", {})); o.set_config_parameters(full); cfg = o.configuration
             res = o.optimize(task, **kw)
         obs["ok"] = True
         obs["evolution"] = [[(a.position, a.cost, a.fitness) for a in p.agents] for p in res.evolution]
